@@ -346,6 +346,30 @@ def run(chk):
         if res[0] != want and ktexts(res[0]) != ktexts(want) and len(chk.violations) < 6:
             chk.violation({"kind": "eval", "expr": e_, "doc": d_, "impl": b.decode("utf-8", "replace"), "expect": (b"OK\n" + want + b"\n").decode("utf-8", "replace")},
                           True, "key nodes do not report the position of their entry: " + e_)
+    # ---- map + map: every node of the sum (also the values taken from the right operand) reports a position inside the sum
+    addm = []
+    for _ in range(1200 if thorough else 200):
+        d = evalgen.gen_doc(chk.rng)
+        mps = [p_ for p_ in evalgen.doc_paths(d) if p_ and isinstance(evalgen._get(d, p_), dict)]
+        if len(mps) < 2:
+            continue
+        p1, p2 = chk.rng.sample(mps, 2)
+        v1, v2 = evalgen._get(d, p1), evalgen._get(d, p2)
+        merged = dict(v1)
+        for k_, x in v2.items():
+            merged[k_] = x
+        addm.append((("pipe", ("add", path_expr(p1), path_expr(p2)), ("collect", ("pipe", ("recurse",), ("path",)))), d,
+                     [list(p1) + list(q) for q in evalgen.doc_paths(merged)]))
+    aout = evalcheck.impl_eval([(e_, d_) for e_, d_, _ in addm])
+    for (e_, d_, w_), b in zip(addm, aout):
+        res = evalcheck.results_of(b)
+        if res is None or len(res) != 1:
+            continue
+        want = evalcheck.ser(w_)
+        chk.count(("addmaps", evalgen.render(e_), json.dumps(d_)), nontrivial=True)
+        if res[0] != want and len(chk.violations) < 6:
+            chk.violation({"kind": "eval", "expr": evalgen.render(e_), "doc": d_, "impl": b.decode("utf-8", "replace"), "expect": (b"OK\n" + want + b"\n").decode("utf-8", "replace")},
+                          True, "the nodes of a map sum do not report positions inside the sum: " + evalgen.render(e_))
     # ---- renaming an entry through its key node: `(P | key) = "nk"` renames that entry, and path / key / keys agree afterwards
     rn = []
     for _ in range(1200 if thorough else 150):
@@ -406,12 +430,12 @@ def run(chk):
     yreq = []
     for fmt, y, f in ycases:
         yreq.append({"op": "eval", "expr": f, "input": y, "in": fmt, "out": "json", "indent": 0})
-        for q in ("[.. | path]", "[.. | key]", "[.. | parent | path]"):
+        for q in ("[.. | path]", "[.. | key]", "[.. | parent | path]", "[... | path]"):
             yreq.append({"op": "eval", "expr": f + " | " + q, "input": y, "in": fmt, "out": "json", "indent": 0})
     yresp = vlib.yqh_parallel(yreq)
     ny = 0
     for k, (fmt, y, f) in enumerate(ycases):
-        r = yresp[4 * k:4 * k + 4]
+        r = yresp[5 * k:5 * k + 5]
         if any((not x) or x.get("err") or x.get("panic") or "out_b64" not in x for x in r):
             chk.count(("yaml", f, y), nontrivial=False)
             continue
@@ -423,10 +447,20 @@ def run(chk):
             continue
         ps = evalgen.doc_paths(after)
         # the root has no key and no parent: `key` and `parent` yield nothing for it
-        want = [[list(p) for p in ps], [p[-1] for p in ps if p], [list(p[:-1]) for p in ps if p]]
+        def kp(v, pre=()):
+            o_ = [list(pre)]
+            if isinstance(v, dict):
+                for k_, x in v.items():
+                    o_.append(list(pre + (k_,)))
+                    o_ += kp(x, pre + (k_,))
+            elif isinstance(v, list):
+                for i_, x in enumerate(v):
+                    o_ += kp(x, pre + (i_,))
+            return o_
+        want = [[list(p) for p in ps], [p[-1] for p in ps if p], [list(p[:-1]) for p in ps if p], kp(after)]
         ny += 1
         chk.count(("yaml", f, y), nontrivial=True)
-        for name, g_, w_ in (("path", got[0], want[0]), ("key", got[1], want[1]), ("parent", got[2], want[2])):
+        for name, g_, w_ in (("path", got[0], want[0]), ("key", got[1], want[1]), ("parent", got[2], want[2]), ("keypath", got[3], want[3])):
             if g_ != w_ and len(chk.violations) < 6:
                 chk.violation({"kind": "yamlpath", "expr": f, "query": name, "yaml": y, "fmt": fmt, "impl": json.dumps(g_), "expect": json.dumps(w_)}, True,
                               "after %s the nodes do not report where they are (%s)" % (f, name))
@@ -446,7 +480,7 @@ def run(chk):
 
 
 def replay_yaml(rp):
-    q = {"path": "[.. | path]", "key": "[.. | key]", "parent": "[.. | parent | path]"}[rp["query"]]
+    q = {"path": "[.. | path]", "key": "[.. | key]", "parent": "[.. | parent | path]", "keypath": "[... | path]"}[rp["query"]]
     r = vlib.yqh_batch([{"op": "eval", "expr": rp["expr"] + " | " + q, "input": rp["yaml"], "in": rp.get("fmt", "yaml"), "out": "json", "indent": 0}])[0]
     if not r or r.get("err") or "out_b64" not in r:
         return True
